@@ -307,8 +307,10 @@ class New(cssutils.util._BaseClass):
             return Constants.attend
 
         # context: negation
-        elif 'negation' == context:
-            # negation: (prefix|IDENT)
+        elif 'negation' == context and (
+            'type_selector' in expected or Constants.element_name == expected
+        ):
+            # negation: (prefix|IDENT), one simple selector only
             self.append(seq, val, 'negation-type-selector', token=token)
             return Constants.negationend
 
